@@ -379,6 +379,12 @@ func (a *AliveDialerSet) NotifyLatencyChange(dialer *Dialer, alive bool) {
 	} else if alive && minPolicy && a.minLatency.dialer == nil {
 		// Use first dialer if no dialer has alive state (usually happen at the very beginning).
 		a.minLatency.dialer = dialer
+		// The group has a selectable dialer again (e.g. a data-UDP node revived by traffic
+		// never has a latency sample): report it, or the alive state cleared when the
+		// last dialer died would never be set again.
+		a.mu.Unlock()
+		a.aliveChangeCallback(true)
+		a.mu.Lock()
 		if a.log.IsLevelEnabled(logrus.InfoLevel) {
 			a.log.WithFields(logrus.Fields{
 				"group":   a.dialerGroupName,
